@@ -7,6 +7,7 @@ deterministic re-execution: a path is identified by its list of decisions.
 Nothing in this file knows about PyXAB; shims.py wires it into the PyXAB modules.
 """
 import math
+import os
 import time
 import signal
 from fractions import Fraction
@@ -93,6 +94,12 @@ def frac_of(zv):
 
 
 # --------------------------------------------------------------------------- engine
+_DUMP_DIR = os.environ.get("VERIF_DUMP_QUERIES")
+_DUMP_EVERY = int(os.environ.get("VERIF_DUMP_EVERY", "50"))
+_DUMP_MAX = int(os.environ.get("VERIF_DUMP_MAX", "40"))
+_DUMPED = 0
+
+
 class Engine:
     """One engine per worker process; `explore` runs a harness function over all paths."""
 
@@ -124,7 +131,25 @@ class Engine:
         self.solver_s += time.time() - t
         if r == z3.unknown:
             self.n_unknown += 1
+        if _DUMP_DIR and self.n_queries % _DUMP_EVERY == 0:
+            self._dump(extra, r)
         return r
+
+    def _dump(self, extra, r):
+        """tools/solver_diff.py: every k-th query is written out as SMT-LIB2 together with the verdict
+        this engine acted on, so that other solvers (cvc5, the distribution's older z3) can be run on
+        exactly the same formula."""
+        global _DUMPED
+        if _DUMPED >= _DUMP_MAX:
+            return
+        _DUMPED += 1
+        s = z3.Solver()
+        s.add(*self.pc)
+        s.add(*extra)
+        path = os.path.join(_DUMP_DIR, "q-%d-%06d.smt2" % (os.getpid(), self.n_queries))
+        with open(path, "w") as f:
+            f.write("; expected: %s\n" % r)
+            f.write(s.to_smt2())
 
     # ---- path life cycle
     def start(self, prefix):
